@@ -508,6 +508,7 @@ func runCorr(rec *Rec, sc *CorrScenario, n int) {
 							continue
 						}
 						st := cmd.Status()
+						_ = cmd.CostTime() // every accessor of a completed call is the caller's to use at once
 						rt, rp := read()
 						rm := ""
 						if m := cmd.InputMeta(); m != nil {
